@@ -179,6 +179,12 @@ Theorem C14_outside_built :
     POk (Msg std_hdr [SM K_INFO_TS 3 8 3 (BInfoTs None)]).
 Proof. exact unbuilt_examples. Qed.
 
+(* the 16-bit octetsToNextHeader: a DATA body above 65535 bytes followed by another submessage is
+   outside `built` and does not round trip (not produced by the Writer, which fragments) *)
+Theorem C14_oversize_refuted :
+  builtb oversize = false /\ parse_msg (ser LE oversize) <> POk (pad_canon oversize).
+Proof. exact oversize_refuted. Qed.
+
 (* non-vacuity: a built message containing every submessage kind, both byte orders mixed *)
 Example C14_all_kinds_built : built all_kinds.
 Proof. exact all_kinds_built. Qed.
